@@ -106,7 +106,7 @@ def classify(case, what):
 def eval_case(case, d=None):
     impl.ensure(False)
     if d is None:
-        with tempfile.TemporaryDirectory(prefix='c10_case_12345678_', dir=clidrv.scratch_root()) as dd:
+        with tempfile.TemporaryDirectory(prefix='c10_case_12345678_', dir=clidrv.odd_root()) as dd:
             entries = DIR if 'files' not in case else [DIR[i] for i in case['files']]
             build(dd, entries)
             for name, kind in case.get('junk', []):
@@ -133,7 +133,7 @@ def eval_case(case, d=None):
     elif q == 'src':
         argv += ['--src', arg]
     elif q == 'srcx':
-        tmp = tempfile.NamedTemporaryFile('w', prefix='c10x_', dir=clidrv.scratch_root(), delete=False)
+        tmp = tempfile.NamedTemporaryFile('w', prefix='c10x_', dir=clidrv.odd_root(), delete=False)
         tmp.write(''.join(c + '\n' for c in arg))
         tmp.close()
         argv += ['--src-exclude', tmp.name]
@@ -224,7 +224,7 @@ def run_chunk(chunk):
     res = ChunkResult()
     impl.ensure(False)
     k = chunk['k']
-    with tempfile.TemporaryDirectory(prefix='c10_case_12345678_', dir=clidrv.scratch_root()) as d:
+    with tempfile.TemporaryDirectory(prefix='c10_case_12345678_', dir=clidrv.odd_root()) as d:
         if k != 'perm':
             build(d)
         if k == 'plid':
